@@ -157,8 +157,10 @@ def gen_case(seed, tier, prop):
                 out.append(["set", rng.randrange(nev)])
             elif k == "probe":
                 out.append(["probe"])
-            elif k == "join" and st["tid"]:
-                out.append(["join", rng.randint(1, st["tid"])])
+            elif k == "join" and st["tid"] > tid:
+                # only tasks created after the joiner: wait-for edges then always point to higher task ids
+                # (group host -> children, start() caller -> child, joiner -> later task), so no cycles
+                out.append(["join", rng.randint(tid + 1, st["tid"])])
             elif k == "atimeout" and depth < cfg["depth"]:
                 out.append(["atimeout", rng.choice([0, 0.125, 0.25, 0.5, 1.0]),
                             body(depth + 1, groups, scopes, budget, tid)])
@@ -439,7 +441,7 @@ class SCRun:
                 self.do_started(tid, s[1])
             elif k == "join":
                 h = self.handles.get(s[1])
-                if h is not None and s[1] != tid:
+                if h is not None and (tid == 0 or s[1] > tid):
                     await self.op(tid, chain, "join", h.wait)
             elif k == "tryfin":
                 await self.do_tryfin(tid, s, chain)
